@@ -21,7 +21,7 @@ pub fn run(id: usize, rng: &mut Rng) -> String {
     let trickle: usize = if rng.chance(1, 3) { 9 } else { 0 };
     let total: usize = bursts.iter().map(|b| b.0).sum();
     let short: Vec<bool> = (0..total).map(|_| rng.chance(1, 5)).collect();
-    let cfg = Config { seed: rng.next(), p_timer: *rng.pick(&[0u64, 0, 20]), p_spurious: *rng.pick(&[0u64, 0, 0, 40, 200]), ..Config::default() };
+    let cfg = Config { seed: rng.next(), p_timer: *rng.pick(&[0u64, 0, 20]), p_spurious: *rng.pick(&[0u64, 0, 0, 40, 200]), p_preempt: *rng.pick(&[0u64, 0, 0, 100, 400]), ..Config::default() };
     let b2 = bursts.clone();
     let s2 = short.clone();
     let ((started, after_burst, idle, dropped, q1, q2, q3, trickle_live), rep) = sched::run(&cfg, move || {
@@ -105,10 +105,11 @@ pub fn run(id: usize, rng: &mut Rng) -> String {
     });
     let labels = map_labels(&rep);
     format!(
-        "pool id={} seed={} ptimer={} bursts={} presettle={} short={} trickle={} live_trickle={} | labels={} started={} live_burst={} live_idle={} live_dropped={} quiet={}{}{} aborted={} clock={}",
+        "pool id={} seed={} ptimer={} preempt={} bursts={} presettle={} short={} trickle={} live_trickle={} | labels={} started={} live_burst={} live_idle={} live_dropped={} quiet={}{}{} aborted={} clock={}",
         id,
         cfg.seed,
         cfg.p_timer,
+        ctl_queue::preempted(&rep),
         bursts.iter().map(|(c, g)| format!("{}:{}", c, g)).collect::<Vec<_>>().join(","),
         if presettle { 1 } else { 0 },
         short.iter().map(|b| if *b { "1" } else { "0" }).collect::<Vec<_>>().join(""),
